@@ -562,3 +562,17 @@ def inner_failure_rule(run, R="ASM"):
     run.check(makes, R, R + "|inner-failure|fails-candidate", anchor[0].loc() if anchor else fam[0].loc(),
               "an asm block whose instruction cannot be encoded answers a failed constraint (the candidate is dropped)",
               "eval_asm never answers `Value::FailedConstraint`: when the instruction inside an asm block cannot be encoded, the block's rule ends the whole instruction with an error instead of being dropped as a candidate")
+
+
+def substituted_line_trimmed(run, R="ASM"):
+    """a line of an asm block is matched like a line of the source: the text that results from putting the arguments in has its
+    trailing blanks removed before it is handed to the matcher (an empty argument at the end of `abs {reg} {p}` leaves `abs a `,
+    and the matcher requires that a rule consumes the whole text)"""
+    from rules_sym import deep
+    f = run.anchor(R, "asm::resolver::eval_asm::resolve_once")
+    if f is None:
+        return
+    sites = [(bi, t) for bi, t in f.calls() if (t.get("resolved") or "") == "asm::matcher::match_instr"]
+    ok = bool(sites) and all(re.search(r"str::trim_end(_matches)?\(|str::trim\(", deep(f, t["args"][-1], 8)) for bi, t in sites)
+    run.check(ok, R, R + "|subst|line-trimmed", f.loc(), "the substituted line is handed to the matcher without trailing blanks",
+              "eval_asm::resolve_once hands the substituted line to the matcher as it is: with an empty argument at its end (`wrap a` for `wrap {reg} {p} => asm { abs {reg} {p} }`) the line ends in a blank and finds no match, although `abs a` written in place assembles")
